@@ -9,7 +9,7 @@ open Sexp
         code gives back exactly the input words, the verifier accepts the program and every
         table index is inside its table; otherwise "fail <stage> <unit>".
    rs <hex>  -> outcome of the one-byte RS branch of setSpecial: ok | error | panic
-   fields <ops> -> ops = space separated R:n G:n N F:i ; "ok" or "panic" (CSV-mode field slices) *)
+   fields <ops> -> ops = space separated R:n:d G:n N F:i M:0|1 ; "ok" or "panic" (CSV-mode field slices) *)
 
 let atoms_z = function
   | List l -> List.map (function Atom a -> z_of_string a | _ -> failwith "atom") l
@@ -103,7 +103,8 @@ let handle = function
       let op_of w =
         if w = "N" then ONF
         else match String.split_on_char ':' w with
-          | ["R"; n] -> ORecord (z_of_string n)
+          | ["R"; n; d] -> ORecord (z_of_string n, z_of_string d)
+          | ["M"; b] -> OSetMode (b = "1")
           | ["G"; n] -> OGetlineVar (z_of_string n)
           | ["F"; i] -> OField (z_of_string i)
           | _ -> failwith ("bad op " ^ w) in
